@@ -39,7 +39,8 @@ def judge(case, impl, model):
     out = C.norm_out(impl['out'])
     pedantic = case['c']['fn']['mode'] == 'pedantic'
     pfail = None
-    claimed = pedantic and 'nonPlain' not in model['regions'] or 'namedtuple' in model['regions'] and pedantic
+    claimed = (pedantic and 'nonPlain' not in model['regions'] or 'namedtuple' in model['regions'] and pedantic) \
+        and 'fwdUnresolved' not in model['regions']
     # an attribute assignment reaches the property setter positionally by Python's own protocol: claimed like a keyword call
     setter = case['x']['access'][0] == 'propset'
     kwcall = s['keywordCall'] or setter
